@@ -172,11 +172,10 @@ impl<K: Ord, V: Val<A> + Debug, A: Ord + Hash + Clone + Debug> CmRDT for Map<K, 
                 self.clock
                     .validate_op(dot)
                     .map_err(CmRDTValidation::SourceOrder)?;
+                // The entry clock only holds the dots of updates to this key, so it has
+                // gaps whenever an actor also edits other keys: source order is judged by
+                // the map clock alone.
                 let entry = self.entries.get(key).cloned().unwrap_or_default();
-                entry
-                    .clock
-                    .validate_op(dot)
-                    .map_err(CmRDTValidation::SourceOrder)?;
                 entry.val.validate_op(op).map_err(CmRDTValidation::Value)
             }
         }
